@@ -221,7 +221,11 @@ def check(tier):
     rep = Report("C17", tier, "other")
     declare(rep)
     hs = run(rep, tier)
-    rep.assumptions = ["array backend's configuration (element count) is covered with its ownership rules in C12",
+    # the array backend's configuration (element count), including narrow index types: rules C01.d
+    from . import c01
+    c01.declare(rep)
+    c01.run_array(rep, tier)
+    rep.assumptions = ["array backend's configuration (element count) is decided by the C01.d rules, evaluated here too",
                        "'a field rebuilt from the reported configurations and storage is equal' follows because every lookup is a function of (configuration, storage) only (C02, C16)",
                        "types of the accessor chains, backend_depth and nth_backend: compile witnesses in C13"]
     rep.extra["instantiations"] = [h.name for h in hs]
